@@ -78,8 +78,11 @@ def seipdv2(ctx, P):
     # on a chunk boundary).  The chunk encryption is dominated by a direct test of the read count against 0.
     from rules import panics
     from rules.common import direct_cmp_switches
-    eb = ctx.body('crypto::aead::encryptor::StreamEncryptor::<R>::fill_buffer')
-    if eb is not None:
+    from rules.c03 import chunk_encrypt_step
+    eb = chunk_encrypt_step(ctx)
+    if eb is None:
+        ctx.check(P + ':seipdv2:no-empty-data-chunk', 'R-dom', 'the SEIPDv2 chunk encryption step is found', False, missing='no function of the stream encryptor pulls the source and runs the chunk primitive')
+    else:
         pulls = eb.calls(r'util::fill_buffer$|io::Read::read$')
         cp = set()
         for i, t in pulls:
